@@ -1,6 +1,6 @@
 """CrossHair harnesses for C10 (exogenous paths, initial conditions and horizon honoured verbatim).
 Symbolic values enter the string API through names injected into the solver module's eval globals."""
-from typing import List, Tuple
+from typing import List, Optional, Tuple
 
 import sfc_models.equation_solver as ES
 from sfc_models.equation_solver import EquationSolver
@@ -113,15 +113,17 @@ def check_user_time_reduced(g: List[float], T: int) -> bool:
             and all(ts['L'][k] == ts['t'][k - 1] for k in range(1, T + 1)))
 
 
-def check_maxtime_line(g: List[float], override: bool) -> bool:
+def check_maxtime_line(g: List[float], N: Optional[int]) -> bool:
     """
-    pre: len(g) <= 3
+    pre: len(g) <= 4
     pre: all(-100 <= v <= 100 for v in g)
+    pre: N is None or 0 <= N <= 3
     post: _
     """
-    T = 1 if override else 2
+    # the block says MaxTime = 2; a horizon set on the solver beforehand (any value, 0 = "only the initial period") takes precedence
+    T = 2 if N is None else N
     try:
-        es = _solve(B_MAXT, g, 0.0, 1 if override else None, True)
+        es = _solve(B_MAXT, g, 0.0, N, True)
     except ValueError:
         return len(g) < T + 1
     if len(g) < T + 1:
